@@ -21,6 +21,15 @@ def gen_histories(ctx, label, n):
         crits = [] if bf else lpcommon.gen_crits(rng, ast, n=rng.choice([0, 1, 1, 2, 3]))
         argv = lpcommon.argv_of(ast['na'], twopl, pc, stab, crits, rng) + (['-bf'] if bf else [])
         limit = rng.choice([None, None, 5, 0.5])
+        if i % 11 == 10:
+            # the run takes EXACTLY the time limit (scripted clock: 1 ms per clock reading, 10 ms per solve, one solve):
+            # "exceeded" is strict, the results must be presented, not Timeout
+            crits = [] if bf else lpcommon.gen_crits(rng, ast, names=rng.choice([[], ['maxsize'], ['mincost']]))
+            argv = lpcommon.argv_of(ast['na'], twopl, pc, stab, crits, rng) + (['-bf'] if bf else [])
+            hist = [['solve', 0.012, 0], ['get_results'], ['get_results_long']]
+            yield dict(text=instgen.render(ast), na=ast['na'], twopl=twopl, pc=pc, stab=stab, bf=bf,
+                       crits=[[c, x] for c, x in crits], argv=argv, history=hist, ast=ast)
+            continue
         if i % 5 == 4:
             # the same getter several times in a row, other getters in between (a getter must not change what a later
             # call of itself or of another getter returns); capacities above one so that listings have several entries
